@@ -19,7 +19,11 @@ def main():
             txt = open(rp).read().strip().splitlines()
             readme = next((l for l in txt if l.strip() and not l.startswith("#")), "")[:170]
         how = "not caught"
-        if m.get("caught"):
+        if m.get("obsolete"):
+            how = "obsolete (no longer breaks the property after a later fix)"
+        elif m.get("note", "").startswith("needs a DTLS transport"):
+            how = "cannot manifest with the library's own transports (see meta.json)"
+        elif m.get("caught"):
             how = "oracle: concrete failing input" if m.get("concrete_failing_input") else "model/implementation disagreement (no-failing-input-found)"
         rows.append((m["property"], name, readme.replace("|", "/"), how, str(m.get("replay_what") or "")[:140].replace("|", "/").replace("\n", " ")))
     print("| property | seeded change | what it does | caught by `./check` | first violation |")
@@ -27,8 +31,11 @@ def main():
     for r in rows:
         print("| " + " | ".join(r) + " |")
     n = len(rows)
-    c = sum(1 for r in rows if r[3] != "not caught")
-    print(f"\n{c} of {n} seeded changes are caught by the quick tier of the property they were written against.")
+    c = sum(1 for r in rows if r[3].startswith(("oracle", "model/")))
+    x = sum(1 for r in rows if r[3].startswith(("obsolete", "cannot")))
+    k = sum(1 for r in rows if r[3].startswith("oracle"))
+    print(f"\n{c} of {n - x} applicable seeded changes are caught by the quick tier of the property they were written against "
+          f"({k} with a concrete failing input; {x} not applicable).")
 
 
 if __name__ == "__main__":
